@@ -16,10 +16,10 @@ import (
 )
 
 type zzScenarioT struct {
-	Values map[string]string      `json:"values"` // nondet name -> concrete value (strings already concretised)
-	Meta   map[string]interface{} `json:"meta"`   // engine-side facts about the encoding (effect indices ...)
-	Failed  []string          `json:"-"`
-	Reached []string          `json:"-"`
+	Values  map[string]string      `json:"values"` // nondet name -> concrete value (strings already concretised)
+	Meta    map[string]interface{} `json:"meta"`   // engine-side facts about the encoding (effect indices ...)
+	Failed  []string               `json:"-"`
+	Reached []string               `json:"-"`
 }
 
 var zzScn *zzScenarioT
